@@ -254,6 +254,12 @@ func runC06(r *run) {
 		// attributes in ascending key order after the message
 		rest := first[len(want):]
 		eff := effective(c.attrs)
+		if len(eff) == 0 || eff[0].val.kind != "group" {
+			// the message field is exactly as wide as configured: what follows is one blank and the next field
+			if len(rest) >= 2 && rest[0] == ' ' && rest[1] == ' ' && !strings.HasSuffix(firstMsg, " ") || len(rest) >= 2 && strings.HasPrefix(rest, "   ") {
+				r.violate(violation{What: "layout: the first line of the message is padded beyond the configured minimal width", Input: encDescribe(c), Expected: fmt.Sprintf("%q", want+" …"), Actual: fmt.Sprintf("%q", first)})
+			}
+		}
 		pos := 0
 		for _, a := range eff {
 			needle := " " + a.key + "="
